@@ -36,8 +36,10 @@ Definition shift_right_cnt (m : mem) (first n count : nat) : R :=
     let last := first + n in
     m1 <- uninit_move_n m (last - count) count last ;; move_backward m1 first (n - count) last
   else uninit_move_n m first n (first + count).
+(* the alive part is assigned BEFORE the raw part is built (the order since the repair of insert(pos, count, v), finding F11:
+   Throw.fill_after_shift_fix is the same text with the throw oracle) *)
 Definition fill_after_shift (m : mem) (first n count : nat) (v : Z) : R :=
-  if n <? count then m1 <- uninit_fill_n m (first + n) (count - n) v ;; fill_n m1 first n v
+  if n <? count then m1 <- fill_n m first n v ;; uninit_fill_n m1 (first + n) (count - n) v
   else fill_n m first count v.
 Definition insert_cnt (m : mem) (size pos count : nat) (v : Z) : R * nat :=
   if count =? 0 then (inr m, size) else
@@ -182,11 +184,11 @@ Lemma fill_after_shift_spec m first n count v :
     (forall j, first <= j < first + count -> m' j = Live v) /\ (forall j, ~ (first <= j < first + count) -> m' j = m j).
 Proof.
   intros Ha Hr. unfold fill_after_shift. destruct (Nat.ltb_spec n count) as [Hlt|Hge].
-  - destruct (uninit_fill_n_spec (count - n) m (first + n) v) as [m1 (E1 & A1 & A2)]; [intros k Hk; apply Hr; lia|].
-    rewrite E1. cbn [bind]. destruct (fill_n_spec n m1 first v) as [m2 (E2 & B1 & B2)].
-    + intros k Hk. rewrite A2 by lia. apply Ha; lia.
+  - destruct (fill_n_spec n m first v) as [m1 (E1 & A1 & A2)]; [intros k Hk; apply Ha; lia|].
+    rewrite E1. cbn [bind]. destruct (uninit_fill_n_spec (count - n) m1 (first + n) v) as [m2 (E2 & B1 & B2)].
+    + intros k Hk. rewrite A2 by lia. apply Hr; lia.
     + exists m2. split; [exact E2|]. split.
-      * intros j Hj. destruct (le_lt_dec (first + n) j); [rewrite B2 by lia; apply A1; lia|apply B1; lia].
+      * intros j Hj. destruct (le_lt_dec (first + n) j); [apply B1; lia|rewrite B2 by lia; apply A1; lia].
       * intros j Hj. rewrite B2 by lia. apply A2. lia.
   - destruct (fill_n_spec count m first v) as [m1 (E1 & A1 & A2)]; [intros k Hk; apply Ha; lia|].
     exists m1. split; [exact E1|]. split; assumption.
